@@ -18,6 +18,8 @@ package watcher
 
 import (
 	"context"
+	"fmt"
+	"runtime/debug"
 	"sync"
 
 	"github.com/fsnotify/fsnotify"
@@ -25,6 +27,7 @@ import (
 
 	"github.com/dadrus/heimdall/internal/heimdall"
 	"github.com/dadrus/heimdall/internal/x/errorchain"
+	"github.com/dadrus/heimdall/internal/x/stringx"
 )
 
 func newWatcher(logger zerolog.Logger) (*watcher, error) {
@@ -108,6 +111,20 @@ func (w *watcher) fireOnChange(evt fsnotify.Event) {
 	w.mut.Unlock()
 
 	for _, listener := range listeners {
-		go listener.OnChanged(w.l.Level(zerolog.InfoLevel))
+		go w.notify(listener, evt.Name)
 	}
+}
+
+// notify runs on its own goroutine. A listener reads a file which somebody is writing right now, so whatever
+// goes wrong in there must neither end the process nor prevent later notifications.
+func (w *watcher) notify(listener ChangeListener, file string) {
+	defer func() {
+		if rec := recover(); rec != nil {
+			w.l.Error().
+				Str("_file", file).
+				Msg(fmt.Sprintf("Change listener panicked: %v\n%s", rec, stringx.ToString(debug.Stack())))
+		}
+	}()
+
+	listener.OnChanged(w.l.Level(zerolog.InfoLevel))
 }
